@@ -392,11 +392,13 @@ def c18(ctx):
     if ok:
         raise Infra("model control failed: FieldLimbs32 accepts Mul without the halving of the doubled odd limbs")
     # word-size headroom at the REAL limb sizes: interval analysis of every point formula over the 10x25.5 layout
-    model_check(ctx, "FieldBounds32.tla", "FieldBounds32_code.cfg")
-    for neg, what in (("sub_nocarry", "a Sub without its partial carry"), ("three_adds", "three additions in a row feeding Mul")):
-        ok, _ = model_check(ctx, "FieldBounds32.tla", "FieldBounds32_%s.cfg" % neg, expect_ok=False)
-        if ok:
-            raise Infra("model control failed: FieldBounds32 accepts " + what)
+    for mod, negs in (("FieldBounds32", (("sub_nocarry", "a Sub without its partial carry"), ("three_adds", "three additions in a row feeding Mul"))),
+                      ("FieldBounds51", (("sub_nocarry", "two SubAfterBasic in a row feeding Mul"), ("three_adds", "a Mul operand of 2^57")))):
+        model_check(ctx, mod + ".tla", mod + "_code.cfg")
+        for neg, what in negs:
+            ok, _ = model_check(ctx, mod + ".tla", "%s_%s.cfg" % (mod, neg), expect_ok=False)
+            if ok:
+                raise Infra("model control failed: %s accepts %s" % (mod, what))
     model_check(ctx, "MCDecode.tla", "MCDecode.cfg")
     num_family(ctx, NUM_CONFIGS_THOROUGH if ctx.thorough else NUM_CONFIGS_QUICK)
     finish(ctx, "field operations of both limb layouts (5x51 in the default build, 10x25.5 with force32bit) driven on reduced elements from limb-boundary byte patterns (each limb 0 / 1 / mask-19 / mask-1 / mask / random, "
